@@ -77,8 +77,12 @@ def h_task_unique(eng):
     it, w, mod, Fn, S = setup(eng)
     n2t, t2n, ours, cur = S["n2t"], S["t2n"], S["ours"], S["cur"]
     ctxname = z3.String("ctx_name")
-    ctx = Rec(fields={"get_global_ctx_name": lambda i: SV(ctxname)}, name="ast_ctx")
+    # the evaluator's global context is looked up when task.unique is CALLED (an evaluator switches context while it runs a
+    # function defined in another file): a different name is current while the factory runs
+    current = [z3.String("ctx_name_when_the_factory_ran")]
+    ctx = Rec(fields={"get_global_ctx_name": lambda i: SV(current[0])}, name="ast_ctx")
     task_unique = it.call(it.getattr_(Fn, "task_unique_factory"), [ctx], {})
+    current[0] = ctxname
     eng.assume(I_unique(n2t.snapshot(), t2n.snapshot()))
     name = z3.String("name")
     kill_me = z3.Bool("kill_me")
@@ -269,9 +273,42 @@ class LazySpec(LoopSpec):
         return self._get().inv(*a)
 
 
+def h_name2id(eng):
+    """task.name2id(name): the task that owns `name` in the CALLER's current global context (resolved at call time), NameError
+    if nobody does; reads only."""
+    it, w, mod, Fn, S = setup(eng)
+    n2t, t2n = S["n2t"], S["t2n"]
+    ctxname = z3.String("ctx_name")
+    current = [z3.String("ctx_name_when_the_factory_ran")]
+    ctx = Rec(fields={"get_global_ctx_name": lambda i: SV(current[0])}, name="ast_ctx")
+    name2id = it.call(it.getattr_(Fn, "task_name2id_factory"), [ctx], {})
+    current[0] = ctxname
+    eng.assume(I_unique(n2t.snapshot(), t2n.snapshot()))
+    name = z3.String("name")
+    full = z3.Concat(ctxname, z3.StringVal("."), name)
+    N0, T0 = n2t.snapshot(), t2n.snapshot()
+    kind, val = run_catching(it, lambda: it.call(name2id, [SV(name)], {}))
+    U = "C13/Function.task_name2id_factory.user_task_name2id"
+    eng.cover(f"exit:{kind}")
+    has = z3.Select(N0["dom"], full)
+    if kind == "ok":
+        ob = eng.oblige(f"{U}/post.returns-the-owner-in-the-callers-current-context", z3.And(has, it.eq(val, SV(z3.Select(N0[".v"], full)))))
+    else:
+        ob = eng.oblige(f"{U}/post.name-error-only-when-nobody-owns-the-name-in-the-callers-current-context", z3.And(val.cls.name == "NameError", z3.Not(has)))
+    if ob.status == "refuted":
+        ob.witness = {"signature": "context-resolved-when-the-factory-ran"}
+    eng.oblige(f"{U}/frame.reads-only", z3.And(n2t.cols["dom"] == N0["dom"], n2t.cols[".v"] == N0[".v"], t2n.cols["dom"] == T0["dom"], t2n.cols[".in"] == T0[".in"]))
+
+
+def replay_name2id(wj):
+    from replay.native import run_native
+    return run_native("c13_name2id_other_context", wj)
+
+
 def harnesses():
     return [
         Harness("task_unique", h_task_unique, units=[(F_PY, "Function.task_unique_factory")]),
+        Harness("task_name2id", h_name2id, units=[(F_PY, "Function.task_name2id_factory")], replay=replay_name2id),
         Harness("contexts_disjoint", h_contexts_disjoint, units=[(F_PY, "Function.unique_name_used")],
                 replay=replay_ctx_collision),
         Harness("run_coro.release", h_run_coro, units=[(F_PY, "Function.run_coro")]),
